@@ -287,7 +287,21 @@ def job_tf(job, res):
                     return rad
             return None
 
+        def run_tf(name, thunk):
+            """Calls the preprocess; a transform length the shim has no exact DFT for means the code transformed something else than the
+            documented frames (lengths 2 and 4 here): reported as a failed obligation and decided by the replay on the real code."""
+            try:
+                return thunk()
+            except E.ShimUnsupported as e_:
+                if 'exact DFT' not in str(e_):
+                    raise
+                pr.prove(z3.BoolVal(False), f'{name}({tagc}): the transform is taken over the documented frames (the code asked for another length: {e_})',
+                         lambda m, tagc=tagc: dict(kind='tf', name=name, frames=tagc, x=L.model_values(m, x), key=dict(kind='tf', name=name)), sample=False)
+                return None
+
         def chk(name, out, exp_rows, squared=False):
+            if out is None:
+                return
             got = S._w(out)
             flat = [e for row in exp_rows for e in row]
             ok = tuple(got.shape) == (2, len(exp_rows[0]))
@@ -298,48 +312,55 @@ def job_tf(job, res):
                         ok = ok and ((rad is not None and is_identity(rad == e_[1])) or (not E.is_sym(g) and is_identity(E.R(g) * E.R(g) == e_[1])))
                     else:
                         ok = ok and equal_elem(g, e_)
-            pr.prove(z3.BoolVal(bool(ok)), f'{name} == its formula (exact DFT, frames of length 2)', lambda m: dict(kind='tf', name=name, x=L.model_values(m, x), key=dict(kind='tf', name=name)))
-        f1, f2 = slice(0, 2), slice(2, 4)
-        A = [[row[0], row[1]] for row in X]
-        B = [[row[2], row[3]] for row in X]
+            pr.prove(z3.BoolVal(bool(ok)), f'{name}({tagc}) == its formula (exact DFT, frames of length 2)', lambda m, tagc=tagc: dict(kind='tf', name=name, frames=tagc, x=L.model_values(m, x), key=dict(kind='tf', name=name)))
+        for (fr1, fr2, ca, cb, tagc) in ((slice(0, 2), slice(2, 4), (0, 1), (2, 3), 'frame_1=0:2, frame_2=2:4'),
+                                         (slice(0, 2), None, (0, 1), (0, 1), 'frame_1=0:2 only (used for both)'),
+                                         (None, slice(2, 4), (2, 3), (2, 3), 'frame_2=2:4 only (used for both)')):
+            f1, f2 = fr1, fr2
+            A = [[row[ca[0]], row[ca[1]]] for row in X]
+            B = [[row[cb[0]], row[cb[1]]] for row in X]
+            XR = [a + b for a, b in zip(A, B)]          # the two frames side by side
 
-        def rfft2(v):
-            return [dft(v, 0), dft(v, 1)]
-        # Xcorr: irfft(conj(rfft(a)) * rfft(b))
-        exp = []
-        for a, b in zip(A, B):
-            fa, fb = rfft2(a), rfft2(b)
-            prod = [(fa[k][0] * fb[k][0] + fa[k][1] * fb[k][1], fa[k][0] * fb[k][1] - fa[k][1] * fb[k][0]) for k in range(2)]
-            exp.append([dft(prod, j, inverse=True)[0] / 2 for j in range(2)])
-        chk('Xcorr', tf.Xcorr(frame_1=f1, frame_2=f2)(x), exp)
-        exp = []
-        for a, b in zip(A, B):
-            fa, fb = rfft2(a), rfft2(b)
-            exp.append([('abs2', (fa[k][0] * fb[k][0] + fa[k][1] * fb[k][1]) ** 2 + (fa[k][0] * fb[k][1] - fa[k][1] * fb[k][0]) ** 2) for k in range(2)])
-        chk('WindowFFT', tf.WindowFFT(frame_1=f1, frame_2=f2)(x), exp)
-        exp = []
-        for a, b in zip(A, B):
-            fa, fb = rfft2(a), rfft2(b)
-            exp.append([(fa[k][0] - fa[k][1]) * (fb[k][0] - fb[k][1]) for k in range(2)])
-        chk('WindowFHT', tf.WindowFHT(frame_1=f1, frame_2=f2)(x), exp)
-        exp_mc, exp_cf, exp_ch = [], [], []
-        for row in X:
-            f = [dft(row, k) for k in range(3)]
-            exp_mc.append([f[k][0] for k in range(3)] + [f[k][1] for k in range(3)] + [('abs2', f[k][0] ** 2 + f[k][1] ** 2) for k in range(3)])
-            exp_cf.append([f[k][0] ** 2 + f[k][1] ** 2 for k in range(3)])
-            exp_ch.append([(f[k][0] - f[k][1]) ** 2 for k in range(3)])
-        chk('MaxCorr', tf.MaxCorr(frame_1=f1, frame_2=f2)(x), exp_mc)
-        out_cf = S._w(tf.ConcatFFT(frame_1=f1, frame_2=f2)(x))
-        # ConcatFFT squares a modulus: sqrt symbols squared
-        okc = tuple(out_cf.shape) == (2, 3)
-        if okc:
-            for g, e_ in zip(out_cf.c.reshape(-1), [e for row in exp_cf for e in row]):
-                t = E.R(g)
-                for sy, rad in CTX.sqrts:
-                    t = z3.substitute(t, (sy * sy, rad))
-                okc = okc and is_identity(t == e_)
-        pr.prove(z3.BoolVal(bool(okc)), 'ConcatFFT == squared modulus of the DFT of the concatenated frames', lambda m: dict(kind='tf', name='ConcatFFT', x=L.model_values(m, x), key=dict(kind='tf', name='ConcatFFT')))
-        chk('ConcatFHT', tf.ConcatFHT(frame_1=f1, frame_2=f2)(x), exp_ch)
+            def rfft2(v):
+                return [dft(v, 0), dft(v, 1)]
+            # Xcorr: irfft(conj(rfft(a)) * rfft(b))
+            exp = []
+            for a, b in zip(A, B):
+                fa, fb = rfft2(a), rfft2(b)
+                prod = [(fa[k][0] * fb[k][0] + fa[k][1] * fb[k][1], fa[k][0] * fb[k][1] - fa[k][1] * fb[k][0]) for k in range(2)]
+                exp.append([dft(prod, j, inverse=True)[0] / 2 for j in range(2)])
+            chk('Xcorr', run_tf('Xcorr', lambda: tf.Xcorr(frame_1=f1, frame_2=f2)(x)), exp)
+            exp = []
+            for a, b in zip(A, B):
+                fa, fb = rfft2(a), rfft2(b)
+                exp.append([('abs2', (fa[k][0] * fb[k][0] + fa[k][1] * fb[k][1]) ** 2 + (fa[k][0] * fb[k][1] - fa[k][1] * fb[k][0]) ** 2) for k in range(2)])
+            chk('WindowFFT', run_tf('WindowFFT', lambda: tf.WindowFFT(frame_1=f1, frame_2=f2)(x)), exp)
+            exp = []
+            for a, b in zip(A, B):
+                fa, fb = rfft2(a), rfft2(b)
+                exp.append([(fa[k][0] - fa[k][1]) * (fb[k][0] - fb[k][1]) for k in range(2)])
+            chk('WindowFHT', run_tf('WindowFHT', lambda: tf.WindowFHT(frame_1=f1, frame_2=f2)(x)), exp)
+            exp_mc, exp_cf, exp_ch = [], [], []
+            for row in XR:
+                f = [dft(row, k) for k in range(3)]
+                exp_mc.append([f[k][0] for k in range(3)] + [f[k][1] for k in range(3)] + [('abs2', f[k][0] ** 2 + f[k][1] ** 2) for k in range(3)])
+                exp_cf.append([f[k][0] ** 2 + f[k][1] ** 2 for k in range(3)])
+                exp_ch.append([(f[k][0] - f[k][1]) ** 2 for k in range(3)])
+            chk('MaxCorr', run_tf('MaxCorr', lambda: tf.MaxCorr(frame_1=f1, frame_2=f2)(x)), exp_mc)
+            out_cf_ = run_tf('ConcatFFT', lambda: tf.ConcatFFT(frame_1=f1, frame_2=f2)(x))
+            if out_cf_ is None:
+                continue
+            out_cf = S._w(out_cf_)
+            # ConcatFFT squares a modulus: sqrt symbols squared
+            okc = tuple(out_cf.shape) == (2, 3)
+            if okc:
+                for g, e_ in zip(out_cf.c.reshape(-1), [e for row in exp_cf for e in row]):
+                    t = E.R(g)
+                    for sy, rad in CTX.sqrts:
+                        t = z3.substitute(t, (sy * sy, rad))
+                    okc = okc and is_identity(t == e_)
+            pr.prove(z3.BoolVal(bool(okc)), f'ConcatFFT({tagc}) == squared modulus of the DFT of the concatenated frames', lambda m, tagc=tagc: dict(kind='tf', name='ConcatFFT', frames=tagc, x=L.model_values(m, x), key=dict(kind='tf', name='ConcatFFT')))
+            chk('ConcatFHT', run_tf('ConcatFHT', lambda: tf.ConcatFHT(frame_1=f1, frame_2=f2)(x)), exp_ch)
     explore(res, body, max_paths=16, timeout_ms=20000, exact=True)
 
 
@@ -415,4 +436,37 @@ def replay(w):
             if not np.array_equal(out, keep):
                 return dict(reproduced=True, detail=f'{op}({w["cfg"]}): the array returned by the first call was overwritten by the second call')
         return dict(reproduced=False, detail='agrees')
-    return dict(reproduced=False, detail='first-order / time-frequency witnesses are reported from the symbolic run; no concrete replay implemented')
+    # first-order and time-frequency preprocesses: numpy references on the model values and on seeded inputs
+    name = w['name']
+    base = L.to_numpy(w['x']).astype('float64') if w.get('x') else None
+    tries = ([base] if base is not None else []) + [np.array([rnd.uniform(-5, 5) for _ in range(8)]).reshape(2, 4) for _ in range(5)]
+    for X in tries:
+        if w['kind'] == 'first':
+            mean, std = np.array([0.5, -1.0, 2.0, 3.0]), np.array([2.0, 4.0, 0.5, 1.0])
+            with np.errstate(all='ignore'):
+                if name == 'serialize_bit':
+                    b = np.array([[rnd.randrange(256) for _ in range(2)] for _ in range(2)], dtype='uint8')
+                    got, exp = P.serialize_bit(b), np.array([[(int(v) >> (7 - i)) & 1 for v in row for i in range(8)] for row in b])
+                else:
+                    got, exp = {
+                        'square': lambda: (P.square(X), X * X), 'ToPower(3)': lambda: (P.ToPower(3)(X), X ** 3),
+                        'center (documented batch mean)': lambda: (P.center(X), X - X.mean(0)), 'CenterOn(mean)': lambda: (P.CenterOn(mean=mean)(X), X - mean),
+                        'StandardizeOn(mean, std)': lambda: (P.StandardizeOn(mean=mean, std=std)(X), (X - mean) / std), 'standardize': lambda: (P.standardize(X), (X - X.mean(0)) / X.std(0)),
+                        'fft_modulus': lambda: (P.fft_modulus(X), np.abs(np.fft.fft(X))[:, :int(np.ceil(X.shape[1] / 2))])}[name]()
+        else:
+            frames = w.get('frames', 'frame_1=0:2, frame_2=2:4')
+            f1 = None if frames.startswith('frame_2') else slice(0, 2)
+            f2 = None if 'only' in frames and frames.startswith('frame_1') else slice(2, 4)
+            ca = slice(2, 4) if f1 is None else slice(0, 2)
+            cb = ca if (f1 is None or f2 is None) else slice(2, 4)
+            A, B = X[:, ca], X[:, cb]
+            fa, fb = np.fft.rfft(A), np.fft.rfft(B)
+            cat = np.fft.rfft(np.concatenate([A, B], axis=1))
+            fht = lambda f: f.real - f.imag  # noqa: E731
+            got = np.array(getattr(P.high_order, name)(frame_1=f1, frame_2=f2)(X))
+            exp = {'Xcorr': lambda: np.fft.irfft(np.conj(fa) * fb, n=2), 'WindowFFT': lambda: np.abs(np.conj(fa) * fb), 'WindowFHT': lambda: fht(fa) * fht(fb),
+                   'MaxCorr': lambda: np.concatenate([cat.real, cat.imag, np.abs(cat)], axis=1), 'ConcatFFT': lambda: np.abs(cat) ** 2, 'ConcatFHT': lambda: fht(cat) ** 2}[name]()
+        got = np.array(got, dtype='float64')
+        if got.shape != np.array(exp).shape or not np.allclose(got, exp, rtol=1e-6, atol=1e-6, equal_nan=True):
+            return dict(reproduced=True, detail=f'{name}{"(" + w["frames"] + ")" if w.get("frames") else ""} on {X.tolist()}: {got.tolist()} (shape {got.shape}) but the formula gives {np.array(exp).tolist()}')
+    return dict(reproduced=False, detail='agrees with the numpy reference on the model values and seeded inputs')
